@@ -10,6 +10,69 @@ open scoped Classical
 variable {R : Type} [Field R] [CharZero R] {V : Type} [AddCommGroup V]
 variable {np nf ns nsv : Nat} {T : DTables np nf ns nsv}
 
+/-- the real orthogonal "permute atoms, rotate Cartesian components" matrix `Γ = P_π ⊗ Q` -/
+def rotGamma (π : Equiv.Perm (Fin np)) (Q : Matrix (Fin 3) (Fin 3) R) :
+    Matrix (Fin np × Fin 3) (Fin np × Fin 3) (Cx R) :=
+  fun p q => if p.1 = π q.1 then Cx.ofR (Q p.2 q.2) else 0
+
+theorem rotGamma_orth (π : Equiv.Perm (Fin np)) (Q : Matrix (Fin 3) (Fin 3) R) (orth : Qᵀ * Q = 1) :
+    (rotGamma π Q)ᵀ * rotGamma π Q = 1 := by
+  apply Matrix.ext; intro p q
+  simp only [Matrix.mul_apply, Matrix.transpose_apply, rotGamma, Fintype.sum_prod_type,
+    Matrix.one_apply]
+  have h1 : ∀ (k : Fin np) (a : Fin 3),
+      (if k = π p.1 then Cx.ofR (Q a p.2) else 0) * (if k = π q.1 then Cx.ofR (Q a q.2) else 0)
+        = if k = π p.1 then (if p.1 = q.1 then Cx.ofR (Q a p.2 * Q a q.2) else 0) else 0 := by
+    intro k a
+    by_cases hk : k = π p.1
+    · subst hk
+      by_cases hpq : p.1 = q.1
+      · simp [hpq, Cx.ofR_mul]
+      · have : π p.1 ≠ π q.1 := fun h => hpq (π.injective h)
+        simp [hpq, this]
+    · simp [hk]
+  simp only [h1]
+  rw [Finset.sum_comm]
+  simp only [Finset.sum_ite_eq', Finset.mem_univ, if_true]
+  have h2 := congrFun (congrFun orth p.2) q.2
+  simp only [Matrix.mul_apply, Matrix.transpose_apply, Matrix.one_apply] at h2
+  by_cases hpq : p.1 = q.1
+  · simp only [hpq, if_true, ← Cx.ofR_sum, h2]
+    by_cases h3 : p.2 = q.2
+    · have : p = q := Prod.ext hpq h3
+      simp [this]
+    · have : p ≠ q := fun h => h3 (congrArg Prod.snd h)
+      simp [h3, this]
+  · have : p ≠ q := fun h => hpq (congrArg Prod.fst h)
+    simp [hpq, this]
+
+/-- entrywise covariance ⇒ `D' = Γ D Γᵀ` -/
+theorem rot_matrix_of_entries (π : Equiv.Perm (Fin np)) (Q : Matrix (Fin 3) (Fin 3) R) (D D' : DM np (Cx R))
+    (h : ∀ i a j b, D' (π i) a (π j) b = ∑ a', ∑ b', Cx.ofR (Q a a') * D i a' j b' * Cx.ofR (Q b b')) :
+    D'.toMatrix = rotGamma π Q * D.toMatrix * (rotGamma π Q)ᵀ := by
+  apply Matrix.ext; intro p q
+  obtain ⟨i, hi⟩ := π.surjective p.1
+  obtain ⟨j, hj⟩ := π.surjective q.1
+  have lhs : D'.toMatrix p q = D' (π i) p.2 (π j) q.2 := by
+    simp only [DM.toMatrix, hi, hj]
+  rw [lhs, h]
+  simp only [Matrix.mul_apply, Matrix.transpose_apply, rotGamma, Fintype.sum_prod_type,
+    DM.toMatrix, ← hi, ← hj, π.apply_eq_iff_eq, ite_mul, zero_mul, mul_ite, mul_zero, Finset.sum_mul]
+  symm
+  rw [Finset.sum_eq_single j (by intro x _ hx; simp [Ne.symm hx]) (by simp)]
+  simp only [if_true]
+  conv_rhs => rw [Finset.sum_comm]
+  apply Finset.sum_congr rfl; intro y _
+  rw [Finset.sum_eq_single i (by intro x _ hx; simp [Ne.symm hx]) (by simp)]
+  simp only [if_true]
+
+theorem rot_charpoly (π : Equiv.Perm (Fin np)) (Q : Matrix (Fin 3) (Fin 3) R) (orth : Qᵀ * Q = 1)
+    (D D' : DM np (Cx R))
+    (h : ∀ i a j b, D' (π i) a (π j) b = ∑ a', ∑ b', Cx.ofR (Q a a') * D i a' j b' * Cx.ofR (Q b b')) :
+    D'.toMatrix.charpoly = D.toMatrix.charpoly := by
+  rw [rot_matrix_of_entries π Q D D' h, Matrix.mul_assoc, Matrix.charpoly_mul_comm, Matrix.mul_assoc,
+    rotGamma_orth π Q orth, Matrix.mul_one]
+
 /-- A space-group operation acting on the infinite crystal: `ρ` is its linear part on displacement
 vectors, `π` the induced permutation of the sublattices, `Q` the Cartesian rotation matrix. -/
 structure LatticeModel.Symmetry (L : LatticeModel V R T) where
@@ -20,10 +83,9 @@ structure LatticeModel.Symmetry (L : LatticeModel V R T) where
   supp : ∀ i j, (L.supp i j).map ρ.toEquiv.toEmbedding = L.supp (π i) (π j)
   psi : ∀ i j r a b, L.Ψ (π i) (π j) (ρ r) a b = ∑ a', ∑ b', Q a a' * L.Ψ i j r a' b' * Q b b'
 
-/-- the unitary (real orthogonal) "permute atoms, rotate Cartesian components" matrix `Γ` -/
+/-- `Γ` of a symmetry of the infinite crystal -/
 def LatticeModel.Symmetry.gamma {L : LatticeModel V R T} (g : L.Symmetry) :
-    Matrix (Fin np × Fin 3) (Fin np × Fin 3) (Cx R) :=
-  fun p q => if p.1 = g.π q.1 then Cx.ofR (g.Q p.2 q.2) else 0
+    Matrix (Fin np × Fin 3) (Fin np × Fin 3) (Cx R) := rotGamma g.π g.Q
 
 theorem fourier_rotation (L : LatticeModel V R T) (g : L.Symmetry) (e e' : V → Cx R)
     (he : ∀ r, e' (g.ρ r) = e r) (s : Fin np → R) (hs : ∀ i, s (g.π i) = s i) (i a j b) :
@@ -41,59 +103,17 @@ theorem fourier_rotation (L : LatticeModel V R T) (g : L.Symmetry) (e e' : V →
   ring
 
 
-theorem LatticeModel.Symmetry.gamma_orth {L : LatticeModel V R T} (g : L.Symmetry) : g.gammaᵀ * g.gamma = 1 := by
-  apply Matrix.ext; intro p q
-  simp only [Matrix.mul_apply, Matrix.transpose_apply, LatticeModel.Symmetry.gamma, Fintype.sum_prod_type,
-    Matrix.one_apply]
-  have h1 : ∀ (k : Fin np) (a : Fin 3),
-      (if k = g.π p.1 then Cx.ofR (g.Q a p.2) else 0) * (if k = g.π q.1 then Cx.ofR (g.Q a q.2) else 0)
-        = if k = g.π p.1 then (if p.1 = q.1 then Cx.ofR (g.Q a p.2 * g.Q a q.2) else 0) else 0 := by
-    intro k a
-    by_cases hk : k = g.π p.1
-    · subst hk
-      by_cases hpq : p.1 = q.1
-      · simp [hpq, Cx.ofR_mul]
-      · have : g.π p.1 ≠ g.π q.1 := fun h => hpq (g.π.injective h)
-        simp [hpq, this]
-    · simp [hk]
-  simp only [h1]
-  rw [Finset.sum_comm]
-  simp only [Finset.sum_ite_eq', Finset.mem_univ, if_true]
-  have h2 := congrFun (congrFun g.orth p.2) q.2
-  simp only [Matrix.mul_apply, Matrix.transpose_apply, Matrix.one_apply] at h2
-  by_cases hpq : p.1 = q.1
-  · simp only [hpq, if_true, ← Cx.ofR_sum, h2]
-    by_cases h3 : p.2 = q.2
-    · have : p = q := Prod.ext hpq h3
-      simp [this]
-    · have : p ≠ q := fun h => h3 (congrArg Prod.snd h)
-      simp [h3, this]
-  · have : p ≠ q := fun h => hpq (congrArg Prod.fst h)
-    simp [hpq, this]
+theorem LatticeModel.Symmetry.gamma_orth {L : LatticeModel V R T} (g : L.Symmetry) : g.gammaᵀ * g.gamma = 1 :=
+  rotGamma_orth g.π g.Q g.orth
 
 theorem fourier_rotation_matrix (L : LatticeModel V R T) (g : L.Symmetry) (e e' : V → Cx R)
     (he : ∀ r, e' (g.ρ r) = e r) (s : Fin np → R) (hs : ∀ i, s (g.π i) = s i) :
-    (L.fourier e' s).toMatrix = g.gamma * (L.fourier e s).toMatrix * g.gammaᵀ := by
-  apply Matrix.ext; intro p q
-  obtain ⟨i, hi⟩ := g.π.surjective p.1
-  obtain ⟨j, hj⟩ := g.π.surjective q.1
-  have lhs : (L.fourier e' s).toMatrix p q = L.fourier e' s (g.π i) p.2 (g.π j) q.2 := by
-    simp only [DM.toMatrix, hi, hj]
-  rw [lhs, fourier_rotation L g e e' he s hs]
-  simp only [Matrix.mul_apply, Matrix.transpose_apply, LatticeModel.Symmetry.gamma, Fintype.sum_prod_type,
-    DM.toMatrix, ← hi, ← hj, g.π.apply_eq_iff_eq, ite_mul, zero_mul, mul_ite, mul_zero, Finset.sum_mul]
-  symm
-  rw [Finset.sum_eq_single j (by intro x _ hx; simp [Ne.symm hx]) (by simp)]
-  simp only [if_true]
-  conv_rhs => rw [Finset.sum_comm]
-  apply Finset.sum_congr rfl; intro y _
-  rw [Finset.sum_eq_single i (by intro x _ hx; simp [Ne.symm hx]) (by simp)]
-  simp only [if_true]
+    (L.fourier e' s).toMatrix = g.gamma * (L.fourier e s).toMatrix * g.gammaᵀ :=
+  rot_matrix_of_entries g.π g.Q _ _ (fourier_rotation L g e e' he s hs)
 
 theorem fourier_rotation_charpoly (L : LatticeModel V R T) (g : L.Symmetry) (e e' : V → Cx R)
     (he : ∀ r, e' (g.ρ r) = e r) (s : Fin np → R) (hs : ∀ i, s (g.π i) = s i) :
-    (L.fourier e' s).toMatrix.charpoly = (L.fourier e s).toMatrix.charpoly := by
-  rw [fourier_rotation_matrix L g e e' he s hs, Matrix.mul_assoc, Matrix.charpoly_mul_comm, Matrix.mul_assoc,
-    g.gamma_orth, Matrix.mul_one]
+    (L.fourier e' s).toMatrix.charpoly = (L.fourier e s).toMatrix.charpoly :=
+  rot_charpoly g.π g.Q g.orth _ _ (fourier_rotation L g e e' he s hs)
 
 end PhononModel
